@@ -143,6 +143,13 @@ def _judge_twice(ctx, r):
         return
     ctx.case(["twice", r["scen"], r["h"], r["a_save"] == "", r["b_save"][:30]], nontrivial=True,
              sample={"case": tag, "b_save": r["b_save"][:60]})
+    if r["scen"] == "save-error-after-rename":
+        if r["a_save"] == "":
+            raise core.MachineryError("Save succeeded although <height>.json could not be created")
+        if a["dir"]:
+            ctx.violation("save-error(half-written-height-directory-left)",
+                          "%s: Save failed after its rename (%s) and left its height directory behind (no <height>.json): the next Save of the height is blocked" % (tag, r["a_save"][:80]), r)
+        return
     if r["a_save"] != "" and r["scen"] == "cancel-other":
         ctx.violation("cancel(removes-other-writer)", "%s: after another writer's Cancel the first writer fails: %s" % (tag, r["a_save"]), r)
         return
@@ -279,13 +286,15 @@ def run(ctx):
     ctx.extra["tlc"] = {"mc_quick": [r1.distinct, round(r1.wall, 1)], "crash": [rp.distinct, round(rp.wall, 1)]}
     cands = []
     if thorough:
-        for cfg, inv in (("FSStore_recover.cfg", "Recoverable"), ("FSStore_toctou.cfg", "FirstSurvives")):
+        r = ctx.tlc(MOD, "FSStore_toctou.cfg", workers=4)   # two writers inside Save at once, repaired error path
+        ctx.extra["tlc"]["FSStore_toctou.cfg"] = [r.distinct, round(r.wall, 1)]
+        for cfg, inv in (("FSStore_recover.cfg", "Recoverable"), ("FSStore_toctou_before.cfg", "FirstSurvives")):
             r = ctx.tlc(MOD, cfg, workers=4, allow_violation=True, count=False)
             cands.append({"cfg": cfg, "violated": r.violated, "expected": inv})
         for cfg in ("FSStore_cleanup.cfg", "FSStore_mc_thorough.cfg"):
             r = ctx.tlc(MOD, cfg, timeout=1500)
             ctx.extra["tlc"][cfg] = [r.distinct, round(r.wall, 1)]
-        for cfg, inv in (("FSStore_rewrite.cfg", "FirstFilesSurvive"), ("FSStore_recover_fixed.cfg", "Recoverable")):
+        for cfg, inv in (("FSStore_rewrite.cfg", "FirstFilesSurvive"),):
             r = ctx.tlc(MOD, cfg, workers=4, allow_violation=True, count=False)
             cands.append({"cfg": cfg, "violated": r.violated, "expected": inv})
     ctx.extra["model_candidates"] = cands
